@@ -209,7 +209,7 @@ inline std::vector<Program> fe_programs() {
     p.ninit = 1;
     p.items = {item({0}, {}, {1, 2}, true, 0), item({0}, {}, {}, false, 1),
                item({}, {}, {}, false, 1)};
-    p.items[0].vabort_times = 4;
+    p.items[0].vabort_times = 9;
     v.push_back(p);
   }
   {
